@@ -190,16 +190,25 @@ def replay_fronts2d(vals, oid):
         for _ in range(8):
             st = np.cumsum(rng.random(shape) < 0.15, axis=(1 if shape[1] > shape[0] else 0)) % 2
             x = st.astype(float) * rng.choice([1.0, 2.5])
-            for axis in (0, -1):
+            for axis, layout in ((0, "C"), (-1, "C"), (0, "F"), (-1, "F"), (0, "T"), (-1, "S")):
+                # memory layouts of the same values: C order, Fortran order, the transposed view of a C array (sync.T), a strided view
+                x0 = x
+                if layout == "F":
+                    x = np.asfortranarray(x0)
+                elif layout == "T":
+                    x = np.ascontiguousarray(x0.T).T
+                elif layout == "S":
+                    x = np.repeat(np.repeat(x0, 2, axis=0), 2, axis=1)[::2, ::2]
                 d = np.diff(x, axis=axis)
                 ind, pol = U.fronts(x, axis=axis, step=1)
+                x = x0
                 w = np.array(np.where(np.abs(d) >= 1))
                 w[axis] += 1
                 want = {tuple(int(v) for v in w[:, k]) + (float(d[tuple(w[:, k] - (np.arange(2) == (axis % 2)))]),) for k in range(w.shape[1])}
                 ind = np.asarray(ind)
                 got = {tuple(int(v) for v in ind[:, k]) + (float(pol[k]),) for k in range(ind.shape[1])} if ind.ndim == 2 else None
                 if got is None or got != want or ind.shape[1] != len(want):
-                    bad.append((shape, axis, sorted(want - (got or set()))[:2], sorted((got or set()) - want)[:2]))
+                    bad.append((shape, axis, layout, sorted(want - (got or set()))[:2], sorted((got or set()) - want)[:2]))
     return {"failed": bool(bad), "examples": bad[:3]}
 
 
@@ -342,6 +351,11 @@ def b_native(B):
     out = spikeglx.split_sync(words)
     want = ((words.astype(np.int64)[:, None] % 65536) >> np.arange(16)[None, :]) & 1
     B.case("all_words", bool(np.array_equal(out, want)) and out.dtype == np.int8, detail="split_sync over all 65536 words")
+    # the same 65536 words held in other containers: unsigned, wider, the other byte order (a file read with an explicit dtype), a strided view, a column
+    reps = {"uint16": words.view(np.uint16).copy(), "int32": words.astype(np.int32), "int64": words.astype(np.int64), ">i2": words.astype(">i2"), ">u2": words.view(np.uint16).astype(">u2"),
+            "<i2": words.astype("<i2"), "strided": np.repeat(words, 2)[::2], "column": words[:, None], "F-ordered column": np.asfortranarray(words[:, None])}
+    badrep = [k_ for k_, w_ in reps.items() if (lambda o: o.shape != (65536, 16) or o.dtype != np.int8 or not np.array_equal(o, want))(spikeglx.split_sync(w_))]
+    B.case("all_words_other_containers", not badrep, detail={"containers_decoded_wrongly": badrep})
     # lines whose steps are not of amplitude 1 (volts, scaled integers): 1-D and 2-D, against the definition
     r1, r2 = replay_fronts({}, ""), replay_rises2d({}, "")
     B.case("fronts_rises_falls_any_amplitude_1d", not r1["failed"], detail=r1)
